@@ -105,7 +105,7 @@ func c15Pure(c *kit.Check, i int, r *kit.Rng) {
 			if want := ct + "-" + new(big.Int).SetUint64(s).String(); id != want {
 				c.Violate("C15|format|client", fmt.Sprintf("FormatClientIdentifier(%q,%d) = %q, want %q", ct, s, id, want), nil)
 			}
-			if !clienttypes.IsValidClientID(id) {
+			if !clienttypes.IsValidClientID(id) || host.ClientIdentifierValidator(id) != nil {
 				c.Violate("C15|roundtrip|client-valid", fmt.Sprintf("formatted identifier %q of a valid client type is not a valid client id", id), nil)
 			}
 		}
